@@ -43,8 +43,8 @@ func (room RoomID) Domain() ServerName {
 
 func parseAndValidateRoomID(id string) (*RoomID, error) {
 	idLength := len(id)
-	if idLength < 4 { // 4 since minimum roomID includes an !, :, non-empty opaque ID, non-empty domain
-		return nil, fmt.Errorf("length %d is too short to be valid", idLength)
+	if idLength < 4 || idLength > 255 { // 4 since minimum roomID includes an !, :, non-empty opaque ID, non-empty domain
+		return nil, fmt.Errorf("length %d is not within the bounds 4-255", idLength)
 	}
 	if id[0] != roomSigil {
 		return nil, fmt.Errorf("first character is not '%c'", roomSigil)
